@@ -82,6 +82,21 @@ def reruns(job):
                                                       job=dict({x: job[x] for x in job if x not in ("lo", "hi")}, only=[seed], lo=seed, hi=seed + 1)))
 
         explore.run_free(probe, pol, hook=try_rerun_while_active)
+        # the same on a workflow that was paused (pausing with actions in flight, then paused at rest)
+        if len(probe.script) > 2:
+            pr = explore.make_run(case, [], model=m)
+            explore.play_script(pr, probe.script[: rng.randint(2, len(probe.script))])
+            if pr.status() == "running":
+                pr.request("pausing")
+                for phase in ("pausing", "paused"):
+                    if pr.status() == phase:
+                        active_hook_done[:] = []
+                        rr = rng.random
+                        rng.random = lambda: 0.0
+                        try_rerun_while_active(pr, "after_done")
+                        rng.random = rr
+                    while pr.inflight:
+                        pr.complete(pol.pick(pr))
         st = probe.status()
         cnt("first_run_" + st)
         if probe.inflight or st not in ("failed", "succeeded", "canceled"):
